@@ -43,6 +43,56 @@ ASSERT_WHITELIST = {
 _BY_PATH = {k.split(":")[1]: v for k, v in ASSERT_WHITELIST.items()}
 
 
+def _partial_reads(m, f, seen=None, depth: int = 0):
+    """constructs in package function f (and the package functions it calls) that can raise for a value the caller
+    did not vet: direct reads of dunder attributes (typing objects do not all have __args__ / __name__ / __origin__),
+    subscripts, raise / assert."""
+    seen = seen if seen is not None else set()
+    if f.qual in seen or depth > 3:
+        return []
+    seen.add(f.qual)
+    out = []
+    for x in own_nodes(f):
+        if isinstance(x, ast.Attribute) and isinstance(x.ctx, ast.Load) and x.attr.startswith("__") and x.attr.endswith("__"):
+            out.append((f, x, f"reads {ast.unparse(x)} directly (AttributeError when the object has none)"))
+        elif isinstance(x, ast.Subscript) and isinstance(x.ctx, ast.Load):
+            out.append((f, x, f"indexes {ast.unparse(x)[:40]}"))
+        elif isinstance(x, (ast.Raise, ast.Assert)):
+            out.append((f, x, "raises / asserts"))
+        elif isinstance(x, ast.Call) and isinstance(x.func, ast.Name):
+            tgt = m.lookup_target(m.resolve_dotted(f.module, f, x.func.id))
+            if isinstance(tgt, FuncInfo) and tgt is not f:
+                out += _partial_reads(m, tgt, seen, depth + 1)
+    return out
+
+
+def _check_message_total(run: Run, m, fi: FuncInfo, r: ast.Raise) -> None:
+    """A designed refusal must arrive: computing its message may not fail first. Package functions called inside the
+    raise expression are read for constructs that can raise on a value nobody has looked at."""
+    if r.exc is None or not isinstance(r.exc, ast.Call):
+        return
+    for x in ast.walk(r.exc):
+        if x is r.exc or not (isinstance(x, ast.Call) and isinstance(x.func, (ast.Name, ast.Attribute))):
+            continue
+        name = x.func.id if isinstance(x.func, ast.Name) else None
+        tgt = m.lookup_target(m.resolve_dotted(fi.module, fi, name)) if name else None
+        if not isinstance(tgt, FuncInfo):
+            continue
+        bad = _partial_reads(m, tgt)
+        if isinstance(r.exc.func, ast.Name) and tgt.name == r.exc.func.id:
+            continue  # the exception factory itself (its type is judged above)
+        run.check(
+            not bad,
+            "C10.R4",
+            fi,
+            r,
+            f"the message of the refusal is computed by {tgt.name}, which cannot fail",
+            f"the message of this refusal is computed by {tgt.name}(..), which {bad[0][2] if bad else ''} ({bad[0][0].module.name.split('.')[-1]}.py:{getattr(bad[0][1], 'lineno', '?')}): for a value of the kind being refused (a bare typing.Callable recorded for a nested lambda, a builtin) the helper raises first and the designed ValueError never arrives" if bad else "",
+            "format the values in hand: f\"{t_true} and {t_false}\"",
+            key=f"refusal message computed by partial helper {tgt.name}",
+        )
+
+
 def check(run: Run) -> None:
     m = run.model
     mod = "func_adl.type_based_replacement"
@@ -109,37 +159,7 @@ def check(run: Run) -> None:
         tyt = e.args[1]
         ok = any(isinstance(a, ast.Compare) and len(a.ops) == 1 and fx._term(a.left) == tyt and fx._term(a.comparators[0]) == ("global", "typing.Any") and ((isinstance(a.ops[0], (ast.IsNot, ast.NotEq)) and pol) or (isinstance(a.ops[0], (ast.Is, ast.Eq)) and not pol)) for a, pol in fx.atoms)
         run.check(ok, "C10.R3", vc, stmt_of(e.call) if e.owner is vc else vc.node, "property lookup skipped when the object's type is Any", "obj.attr[params](args) on an object of unknown type reaches getattr(<type>, attr) with type Any: AttributeError instead of passing the call through (a test 'is not None' on lookup_type's result is vacuous - it never returns None)", "if found_type is not Any")
-    vd = tt.methods.get("visit_Dict")
-    if vd is None:
-        raise AnalysisError("anchor vanished: type_transformer.visit_Dict")
-    fvd = ctx.analysis(vd)
-    from ..lib import unit
-
-    md_sites = [(f_, c) for f_ in unit(m, vd) for c in calls_in(f_) if isinstance(c.func, ast.Name) and c.func.id == "make_dataclass"]
-    run.floor("C10.R3", len(md_sites), 1, "make_dataclass sites")
-    for f_, c in md_sites:
-        fx = Facts(ctx.analysis(f_), c)
-        if f_ is not vd:
-            # the guard may sit at the call of the helper inside visit_Dict
-            for c2 in calls_in(vd):
-                if isinstance(c2.func, (ast.Name, ast.Attribute)) and ast.unparse(c2.func).split(".")[-1] == f_.name:
-                    fx.atoms += Facts(fvd, c2).atoms
-        ident = kw = uniq = isstr = False
-        for a, pol in fx.atoms:
-            if not pol:
-                continue
-            for x in ast.walk(a):
-                if isinstance(x, ast.Call) and isinstance(x.func, ast.Attribute) and x.func.attr == "isidentifier" and not _under_not(x, a):
-                    ident = True
-                if isinstance(x, ast.Call) and ast.unparse(x.func).endswith("iskeyword") and _under_not(x, a):
-                    kw = True
-                if isinstance(x, ast.Call) and isinstance(x.func, ast.Name) and x.func.id == "isinstance" and len(x.args) == 2 and ast.unparse(x.args[1]) == "str":
-                    isstr = True
-                if isinstance(x, ast.Compare) and isinstance(x.ops[0], ast.Eq) and "len(set(" in ast.unparse(x):
-                    uniq = True
-        run.check(isstr and ident, "C10.R3", vd, stmt_of(c), "make_dataclass only when every key is an identifier string", "make_dataclass is fed dictionary keys that are not known to be identifier strings: {'a b': ..} or {1: ..} raises TypeError")
-        run.check(kw, "C10.R3", vd, stmt_of(c), "make_dataclass only when no key is a Python keyword", "make_dataclass is fed keys that may be Python keywords: {'class': ..} / {'pass': ..} raises TypeError ('Field names must not be keywords') - an internal error for a valid expression")
-        run.check(uniq, "C10.R3", vd, stmt_of(c), "make_dataclass only when keys are unique", "make_dataclass is fed possibly repeated keys (TypeError: field name duplicated)")
+    check_dict_typing(run, ctx, m, tt, "C10.R3")
     # every path of visit_Dict still returns the node (R2 covers), and the dataclass is only *recorded*
     # ---------------- R4
     eff = effects_for(m)
@@ -180,6 +200,7 @@ def check(run: Run) -> None:
                     et = strip_sites(fa.term_of(n.exc)) if fa.cfg.has_node(n.exc) else ("top", "?")
                     if et[0] == "app" and et[1][0] == "global" and et[1][1].startswith("builtins."):
                         nm = et[1][1].split(".")[-1]
+                _check_message_total(run, m, fi, n)
                 wl = RAISE_WHITELIST.get((fi.qual, nm))
                 run.check(nm == "ValueError" or wl is not None, "C10.R4", fi, n, f"raise {nm}" + (f" (enumerated: {wl})" if wl else " is a designed ValueError"), f"{fi.qual.split(':')[1]} raises {nm} on the operators' lambda pipeline: refusals must be ValueError", "ValueError")
             elif isinstance(n, ast.Assert):
@@ -273,6 +294,60 @@ def check(run: Run) -> None:
     # ---------------- R5
     check_env_merge(run, m, "C10.R5")
     # Where's designed refusal exists (shared with C08.R2) and the IfExp / tuple-index / dict-key refusals are ValueErrors: R4 covers them
+
+
+def check_dict_typing(run: Run, ctx, m, tt, rule: str) -> None:
+    """visit_Dict of the type follower: a dictionary literal gets a dataclass type exactly when its keys can be field
+    names - unique identifier strings that are not Python keywords (keyword.iskeyword). A weaker guard feeds
+    make_dataclass something it rejects (an internal error, C10); a stronger or different one leaves a perfectly good
+    dictionary untyped, and calls reached through its fields are no longer normalised or followed (C07, C08)."""
+    from ..lib import unit
+
+    vd = tt.methods.get("visit_Dict")
+    if vd is None:
+        raise AnalysisError("anchor vanished: type_transformer.visit_Dict")
+    fvd = ctx.analysis(vd)
+    md_sites = [(f_, c) for f_ in unit(m, vd) for c in calls_in(f_) if isinstance(c.func, ast.Name) and c.func.id == "make_dataclass"]
+    run.floor(rule, len(md_sites), 1, "make_dataclass sites")
+    for f_, c in md_sites:
+        fx = Facts(ctx.analysis(f_), c)
+        if f_ is not vd:
+            # the guard may sit at the call of the helper inside visit_Dict
+            for c2 in calls_in(vd):
+                if isinstance(c2.func, (ast.Name, ast.Attribute)) and ast.unparse(c2.func).split(".")[-1] == f_.name:
+                    fx.atoms += Facts(fvd, c2).atoms
+        ident = kw = uniq = isstr = False
+        extra = []
+        for a, pol in fx.atoms:
+            if not pol:
+                continue
+            for x in ast.walk(a):
+                if isinstance(x, ast.Call) and isinstance(x.func, ast.Attribute) and x.func.attr == "isidentifier" and not _under_not(x, a):
+                    ident = True
+                if isinstance(x, ast.Call) and ast.unparse(x.func).split(".")[-1] == "iskeyword" and _under_not(x, a):
+                    kw = True
+                if isinstance(x, ast.Call) and isinstance(x.func, ast.Name) and x.func.id == "isinstance" and len(x.args) == 2 and ast.unparse(x.args[1]) == "str":
+                    isstr = True
+                if isinstance(x, ast.Compare) and isinstance(x.ops[0], ast.Eq) and "len(set(" in ast.unparse(x):
+                    uniq = True
+            # per-key conditions: all(<conjunction> for n in names) - each conjunct must be one of the designed three
+            if isinstance(a, ast.Call) and isinstance(a.func, ast.Name) and a.func.id == "all" and len(a.args) == 1 and isinstance(a.args[0], (ast.GeneratorExp, ast.ListComp)):
+                g = a.args[0]
+                conj = g.elt.values if isinstance(g.elt, ast.BoolOp) and isinstance(g.elt.op, ast.And) else [g.elt]
+                conj = list(conj) + [i_ for gen in g.generators for i_ in gen.ifs]
+                for cnd in conj:
+                    txt = ast.unparse(cnd)
+                    neg = isinstance(cnd, ast.UnaryOp) and isinstance(cnd.op, ast.Not)
+                    inner = cnd.operand if neg else cnd
+                    call = inner if isinstance(inner, ast.Call) else None
+                    fn = ast.unparse(call.func).split(".")[-1] if call is not None else ""
+                    designed = (not neg and fn in ("isinstance", "isidentifier")) or (neg and fn == "iskeyword")
+                    if not designed:
+                        extra.append(txt[:60])
+        run.check(isstr and ident, rule, vd, stmt_of(c), "make_dataclass only when every key is an identifier string", "make_dataclass is fed dictionary keys that are not known to be identifier strings: {'a b': ..} or {1: ..} raises TypeError")
+        run.check(kw, rule, vd, stmt_of(c), "make_dataclass only when no key is a Python keyword", "make_dataclass is fed keys that may be Python keywords: {'class': ..} / {'pass': ..} raises TypeError ('Field names must not be keywords') - an internal error for a valid expression")
+        run.check(uniq, rule, vd, stmt_of(c), "make_dataclass only when keys are unique", "make_dataclass is fed possibly repeated keys (TypeError: field name duplicated)")
+        run.check(not extra, rule, vd, stmt_of(c), "a dictionary literal is typed whenever its keys can be dataclass fields", f"a dictionary literal is typed only when, in addition, every key satisfies {' and '.join(extra)}: dictionaries with other perfectly good field names (e.g. 'type', 'match') stay untyped, so calls reached through their fields are neither normalised nor followed", "isinstance(n, str) and n.isidentifier() and not keyword.iskeyword(n)", key="dictionary typing has an undesigned condition on the keys")
 
 
 def _under_not(x: ast.AST, root: ast.AST) -> bool:
